@@ -261,7 +261,7 @@ mod sched_part {
         });
         Scenario {
             name: name.to_string(),
-            opts: Opts { stale_reads: false, stale_depth: 2, max_spurious: 0, horizon: 20_000, log_ops: false, log_handler_ops: false, reduce: true, no_discipline: false, nest_value_t1: 0 },
+            opts: Opts { stale_reads: false, stale_depth: 2, max_spurious: 0, horizon: 20_000, log_ops: false, log_handler_ops: false, reduce: true, no_discipline: false, nest_value_t1: 0, post_points: false },
             signals: vec![S1, S2],
             setup: Box::new(setup),
             threads,
@@ -299,7 +299,7 @@ pub fn run(tier: Tier) -> BResult {
         hists.push(vec![Step::New(vec![libc::SIGUSR1, b, libc::SIGUSR2])]);
     }
     let ops = vec![Step::Add(libc::SIGUSR2), Step::Add(libc::SIGUSR1), Step::Add(libc::SIGSEGV), Step::Add(-1), Step::Add(128), Step::Add(100), Step::Add(0), Step::CloneHandle, Step::DropHandle, Step::DropInstance];
-    for start in [vec![libc::SIGUSR1], vec![libc::SIGUSR1, libc::SIGWINCH]] {
+    for start in [vec![libc::SIGUSR1], vec![libc::SIGUSR1, libc::SIGWINCH, libc::SIGUSR1]] {
         let mut layer: Vec<Vec<Step>> = vec![vec![Step::New(start.clone())]];
         for _ in 0..depth {
             let mut next = Vec::new();
@@ -451,7 +451,7 @@ pub fn run(tier: Tier) -> BResult {
         violations,
         exhaustive,
         caps: a_caps,
-        rule: format!("schedules: two threads add the same signal through clones of one handle while it is delivered (and the instance is dropped), every choice vector within the deviation bound on the real code; histories: every history new(list) + up to {} operations over {{add_signal(ok new / already watched / forbidden / negative / too large / OS-refused 100 / 0), clone handle, drop handle, drop instance}} from two successful constructors, 12 failing constructor lists (rejected number first / middle / last), and add_signal(x), add_signal(x) again for every x in [-2,130]+MIN/MAX; x 3 exfiltrators; a probe after every step; reference model = {{instance alive, handle count, watched set}}; distinct = distinct model states reached", depth),
+        rule: format!("schedules: two threads add the same signal through clones of one handle while it is delivered (and the instance is dropped), every choice vector within the deviation bound on the real code; histories: every history new(list) + up to {} operations over {{add_signal(ok new / already watched / forbidden / negative / too large / OS-refused 100 / 0), clone handle, drop handle, drop instance}} from two successful constructors (one lists a signal twice), 12 failing constructor lists (rejected number first / middle / last), and add_signal(x), add_signal(x) again for every x in [-2,130]+MIN/MAX; x 3 exfiltrators; a probe after every step; reference model = {{instance alive, handle count, watched set}}; distinct = distinct model states reached", depth),
         assumptions: vec!["wake attempts per delivery counted through the cfg(sighook_verif) scheduling point in pipe::wake".into(), "open descriptors counted through /proc/self/fd".into()],
     }
 }
